@@ -147,6 +147,13 @@ def dag(draw, *, max_nodes=12, leaf_profile='plain', kinds=None, p_alias=0.55,
               'pos': pos, 'kw': kw, 'edits': []}
       if tags and draw(st.booleans()):
         node['tags'] = [[draw(st.sampled_from([0, 1, 'a'])), draw(st.sampled_from(['TagA', 'TagB', 'TagX']))]]
+    elif kind == 'Bdictcfg':
+      # experimental DictConfig: a Config subclass that builds a dict from arbitrary keyword arguments
+      names_ = draw(st.lists(st.sampled_from(['x', 'y', 'child', 'k1', 'k2']), unique=True, min_size=1, max_size=4))
+      kw = {nm: ref() for nm in names_}
+      node = {'k': 'B', 'bt': 'DictConfig', 'fn': {'kind': 'sym', 'name': 'things:f2'}, 'pos': [], 'kw': kw, 'edits': []}
+      if tags and draw(st.booleans()):
+        node['tags'] = [[draw(st.sampled_from(names_)), draw(st.sampled_from(['TagA', 'TagB', 'TagX']))]]
     elif kind == 'Bpo3':
       # required positional-only parameter followed by defaulted positional-only ones
       pos = [ref()]
